@@ -15,7 +15,7 @@ R3  every parameter's (name, hash) pair is appended on every normal path through
 from __future__ import annotations
 
 import ast
-from typing import Any, Dict, List, Optional, Tuple
+from typing import Any, Dict, List, Optional, Set, Tuple
 
 from ..absint import Evaluator, Const, Sym, Env, TOP, NOT_HANDLED as NOT_HANDLED_
 from ..cfg import cfg_of
@@ -44,16 +44,73 @@ def _param_loop(f: Func) -> Optional[ast.For]:
     return None
 
 
+def _zipped(loop: ast.For) -> Optional[Tuple[Optional[str], Optional[str], str]]:
+    """`for ((name, param), value) in zip(sig.parameters.items(), <positional values padded with a sentinel>)`: (name variable, parameter variable, positional-value
+    variable) - the parameter is bound by position when the zipped value is not the padding"""
+    t = loop.target
+    it = loop.iter
+    if not (isinstance(it, ast.Call) and unparse(it.func) == "zip" and len(it.args) == 2 and isinstance(t, ast.Tuple) and len(t.elts) == 2 and isinstance(t.elts[1], ast.Name)):
+        return None
+    first = t.elts[0]
+    if "parameters" not in unparse(it.args[0]):
+        return None
+    if isinstance(first, ast.Tuple) and len(first.elts) == 2 and all(isinstance(x, ast.Name) for x in first.elts):
+        return first.elts[0].id, first.elts[1].id, t.elts[1].id
+    if isinstance(first, ast.Name):
+        return None, first.id, t.elts[1].id
+    return None
+
+
 def _loop_vars(loop: ast.For) -> Tuple[Optional[str], Optional[str]]:
     """(index variable, name variable) of `for (idx, (name, param)) in enumerate(sig.parameters.items())`"""
     t = loop.target
     idx = name = None
+    z = _zipped(loop)
+    if z is not None:
+        return None, z[0]
     if isinstance(t, ast.Tuple) and len(t.elts) == 2:
         if isinstance(t.elts[0], ast.Name) and isinstance(t.elts[1], ast.Tuple) and t.elts[1].elts and isinstance(t.elts[1].elts[0], ast.Name):
             idx, name = t.elts[0].id, t.elts[1].elts[0].id
         elif isinstance(t.elts[0], ast.Name) and "enumerate" not in unparse(loop.iter):
             name = t.elts[0].id
     return idx, name
+
+
+def _param_names(loop: ast.For) -> Tuple[Optional[str], Set[str], Set[str]]:
+    """(index variable, names that hold the parameter's name, names that hold the parameter object) of the parameter loop, for the forms
+    `for (i, (name, p)) in enumerate(sig.parameters.items())`, `for (name, p) in sig.parameters.items()`, `for (i, p) in enumerate(sig.parameters.values())` (+ `name = p.name`)"""
+    idx_var, name_var = _loop_vars(loop)
+    param_vars: Set[str] = set()
+    t = loop.target
+    z = _zipped(loop)
+    if z is not None:
+        if z[1]:
+            param_vars.add(z[1])
+        t = None
+    if isinstance(t, ast.Tuple) and len(t.elts) == 2:
+        second = t.elts[1]
+        if isinstance(second, ast.Tuple) and len(second.elts) == 2 and isinstance(second.elts[1], ast.Name):
+            param_vars.add(second.elts[1].id)
+        elif isinstance(second, ast.Name):
+            param_vars.add(second.id)
+            if "enumerate" in unparse(loop.iter) and isinstance(t.elts[0], ast.Name):
+                idx_var = idx_var or t.elts[0].id
+                if name_var == t.elts[0].id:
+                    name_var = None
+    elif isinstance(t, ast.Name):
+        param_vars.add(t.id)
+    names: Set[str] = {name_var} if name_var else set()
+    for st in ast.walk(loop):
+        if isinstance(st, (ast.Assign, ast.AnnAssign)) and st.value is not None:
+            tg = st.targets[0] if isinstance(st, ast.Assign) and len(st.targets) == 1 else (st.target if isinstance(st, ast.AnnAssign) else None)
+            if isinstance(tg, ast.Name):
+                if isinstance(st.value, ast.Name) and st.value.id in param_vars:
+                    param_vars.add(tg.id)
+                if isinstance(st.value, ast.Attribute) and st.value.attr == "name" and isinstance(st.value.value, ast.Name) and st.value.value.id in param_vars:
+                    names.add(tg.id)
+                if isinstance(st.value, ast.Name) and st.value.id in names:
+                    names.add(tg.id)
+    return idx_var, names, param_vars
 
 
 def _sources(f: Func, loop: ast.For) -> List[str]:
@@ -94,6 +151,10 @@ def _sources(f: Func, loop: ast.For) -> List[str]:
                     elif isinstance(c.ops[0], ast.In) and isinstance(c.left, ast.Name) and (c.left.id in name_names or (name_var is None and "kwargs" in t)) \
                             and not (isinstance(c.left, ast.Constant)):
                         kind = "keyword"
+                zz = _zipped(loop)
+                if kind is None and zz is not None and isinstance(c, ast.Compare) and len(c.ops) == 1 and isinstance(c.ops[0], (ast.Is, ast.IsNot, ast.Eq, ast.NotEq)) \
+                        and isinstance(c.left, ast.Name) and c.left.id == zz[2]:
+                    kind = "positional"
                 if kind is None and any(isinstance(x, ast.Attribute) and x.attr == "default" for x in ast.walk(c)) and "empty" in t:
                     kind = "default"
                 if kind and kind not in out:
@@ -151,7 +212,7 @@ def star_args_bound_whole(ctx: Ctx, rule: str) -> int:
         loop = _param_loop(f)
         if loop is None:
             continue
-        idx_var, _name = _loop_vars(loop)
+        idx_var, _names12, _pv12 = _param_names(loop)
         pos = f.positional_params()[1] if len(f.positional_params()) > 1 else None
         # the kinds the binder lets through: the tuple of `Parameter.<KIND>` it tests the parameter's kind against - written in the test, held in a local or a
         # module constant, or handed to a checking helper
@@ -293,8 +354,8 @@ def run(ctx: Ctx) -> None:
         if src != ["inspect.signature"]:
             wit.append(f"parameter source {src}: inspect.getfullargspec does not follow __wrapped__ (a functools.wraps decorated callee binds nothing) and orders parameters differently")
         it = unparse(loop.iter)
-        if "parameters.items()" not in it and src == ["inspect.signature"]:
-            wit.append(f"{f.loc(loop)}: loop iterates `{it}` instead of <signature>.parameters.items()")
+        if "parameters.items()" not in it and "parameters.values()" not in it and src == ["inspect.signature"]:
+            wit.append(f"{f.loc(loop)}: loop iterates `{it}` instead of <signature>.parameters.items() / .values()")
         for n in ast.walk(loop):
             if isinstance(n, (ast.Break, ast.Continue)):
                 wit.append(f"{f.loc(n)}: `{type(n).__name__.lower()}` inside the parameter loop skips parameters")
@@ -303,6 +364,7 @@ def run(ctx: Ctx) -> None:
         else:
             rep.ok("C13.R1", f.qname, desc, f.loc(loop))
         skeleton[f.qname]["order"] = _sources(f, loop)
+        skeleton[f.qname]["precedence"] = _precedence(ctx, f, loop)
         # ---- R2 hashing sites -------------------------------------------------------------------
         fl = flow_of(prog, f)
         scopes = [f] + list(f.nested.values())
@@ -358,7 +420,11 @@ def run(ctx: Ctx) -> None:
             pname = None
             if isinstance(target, ast.Tuple) and len(target.elts) == 2 and isinstance(target.elts[1], ast.Tuple) and isinstance(target.elts[1].elts[0], ast.Name):
                 pname = target.elts[1].elts[0].id
-            keyed = key_expr is not None and pname is not None and any(isinstance(x, ast.Name) and x.id == pname for x in ast.walk(key_expr))
+            _i3, names3, pvars3 = _param_names(loop)
+            if pname is not None:
+                names3 = names3 | {pname}
+            keyed = key_expr is not None and (any(isinstance(x, ast.Name) and x.id in names3 for x in ast.walk(key_expr))
+                                              or any(isinstance(x, ast.Attribute) and x.attr == "name" and isinstance(x.value, ast.Name) and x.value.id in pvars3 for x in ast.walk(key_expr)))
             if keyed:
                 rep.ok("C13.R3", f.qname, desc + ", keyed by the parameter's own name", f.loc(a0))
             else:
@@ -591,8 +657,15 @@ def run(ctx: Ctx) -> None:
     rep.floor("C13.R10", n10, 6)
     a, b = skeleton.get(rt.qname, {}), skeleton.get(lit.qname, {})
     desc = "both binders choose the value source in the order positional, keyword, default"
-    if a.get("order") == b.get("order") == ["positional", "keyword", "default"]:
+    pa, pb = a.get("precedence", ("unknown", [])), b.get("precedence", ("unknown", []))
+    if a.get("order") == b.get("order") == ["positional", "keyword", "default"] and pa[0] != "bad" and pb[0] != "bad":
         rep.ok("C13.R1", f"{rt.name} ~ {lit.name}", desc, rt.loc())
+    elif pa[0] == "ok" and pb[0] == "ok":
+        # another textual order of the tests with the same precedence (decided propositionally: positional, else keyword, else default)
+        rep.ok("C13.R1", f"{rt.name} ~ {lit.name}", desc + " (precedence decided on the CFG)", rt.loc())
+    elif pa[0] == "bad" or pb[0] == "bad":
+        rep.bad("C13.R1", f"{rt.name} ~ {lit.name}", desc, rt.loc(), pa[1] + pb[1], "order",
+                what="the two argument binders resolve positional / keyword / default differently")
     else:
         rep.bad("C13.R1", f"{rt.name} ~ {lit.name}", desc, rt.loc(), [f"{rt.name}: {a.get('order')}", f"{lit.name}: {b.get('order')}"], "order",
                 what="the two argument binders resolve positional / keyword / default differently")
@@ -740,3 +813,95 @@ def class_binding_in_signature(ctx: Ctx, rule: str) -> int:
                     "only through the loop over the methods", "`class Pt(NamedTuple): x: int; y: int = 0`: dds.keep('/pt', Pt, 1) then dds.keep('/pt', Pt, 2) returns Pt(x=1, y=0): the "
                     "two calls bind different values and share a signature"], "class-binding", what="the constructor arguments of a class without methods are not part of its signature")
     return n
+
+
+def _precedence(ctx: Ctx, f: Func, loop: ast.For) -> Tuple[str, List[str]]:
+    """The value bound to an ordinary parameter is taken from the positional arguments if there is one at its index, else from the keyword of its name, else
+    from its default - whatever the textual order of the tests.  Decided propositionally on the CFG: with atoms `pos` (index < number of positional arguments) and
+    `kw` (name among the keywords), the keyword site cannot be reached when pos, the default site neither when pos nor when kw, and each site can be reached in
+    its own case.  ('ok' | 'bad' | 'unknown', witnesses)"""
+    from ..propdom import excluding_branches
+    prog = ctx.prog
+    ps = f.positional_params()
+    if len(ps) < 3:
+        return "unknown", ["binder without (f, args, kwargs) parameters"]
+    pos_p, kw_p = ps[1], ps[2]
+    idx_var, name_var = _loop_vars(loop)
+    # the parameter object and the expressions that denote its name
+    param_vars = set()
+    t = loop.target
+    if isinstance(t, ast.Tuple) and len(t.elts) == 2:
+        second = t.elts[1]
+        if isinstance(second, ast.Tuple) and len(second.elts) == 2 and isinstance(second.elts[1], ast.Name):
+            param_vars.add(second.elts[1].id)
+        elif isinstance(second, ast.Name):
+            if "enumerate" in unparse(loop.iter):
+                param_vars.add(second.id)
+                if isinstance(t.elts[0], ast.Name):
+                    idx_var = idx_var or t.elts[0].id
+            else:
+                param_vars.add(second.id)
+    names = {name_var} if name_var else set()
+    for st in ast.walk(loop):
+        if isinstance(st, (ast.Assign, ast.AnnAssign)) and st.value is not None:
+            tg = st.targets[0] if isinstance(st, ast.Assign) and len(st.targets) == 1 else (st.target if isinstance(st, ast.AnnAssign) else None)
+            if isinstance(tg, ast.Name):
+                if isinstance(st.value, ast.Name) and st.value.id in param_vars:
+                    param_vars.add(tg.id)
+                if isinstance(st.value, ast.Attribute) and st.value.attr == "name" and isinstance(st.value.value, ast.Name) and st.value.value.id in param_vars:
+                    names.add(tg.id)
+                if isinstance(st.value, ast.Name) and st.value.id in names:
+                    names.add(tg.id)
+    if not idx_var or not (names or param_vars):
+        return "unknown", ["index / name variables of the parameter loop not recognised"]
+
+    def is_name(e: ast.AST) -> bool:
+        return (isinstance(e, ast.Name) and e.id in names) or (isinstance(e, ast.Attribute) and e.attr == "name" and isinstance(e.value, ast.Name) and e.value.id in param_vars)
+
+    def atom(e: ast.AST) -> Optional[str]:
+        if isinstance(e, ast.Compare) and len(e.ops) == 1:
+            l, r, op = e.left, e.comparators[0], e.ops[0]
+            if isinstance(op, (ast.Lt, ast.LtE, ast.Gt, ast.GtE)):
+                if isinstance(l, ast.Name) and l.id == idx_var:
+                    return "pos" if isinstance(op, (ast.Lt, ast.LtE)) else "!pos"
+                if isinstance(r, ast.Name) and r.id == idx_var:
+                    return "pos" if isinstance(op, (ast.Gt, ast.GtE)) else "!pos"
+            if isinstance(op, (ast.In, ast.NotIn)) and is_name(l) and isinstance(r, ast.Name) and r.id == kw_p:
+                return "kw" if isinstance(op, ast.In) else "!kw"
+        return None
+    # sites
+    pos_sites = [y for y in ast.walk(loop) if isinstance(y, ast.Subscript) and isinstance(y.value, ast.Name) and y.value.id == pos_p and not isinstance(y.slice, ast.Slice)
+                 and any(isinstance(z, ast.Name) and z.id == idx_var for z in ast.walk(y.slice))]
+    kw_sites = [y for y in ast.walk(loop) if isinstance(y, ast.Subscript) and isinstance(y.value, ast.Name) and y.value.id == kw_p and is_name(y.slice)]
+    df_sites = [y for y in ast.walk(loop) if isinstance(y, ast.Attribute) and y.attr == "default" and isinstance(y.value, ast.Name) and y.value.id in param_vars
+                and isinstance(f.module.parent.get(y), ast.Call)]
+    if not (pos_sites and kw_sites and df_sites):
+        return "unknown", [f"value sites not recognised (positional {len(pos_sites)}, keyword {len(kw_sites)}, default {len(df_sites)})"]
+    cfg = cfg_of(f)
+    kinds_false: Dict[str, bool] = {}
+    for y in f.own_nodes():
+        if isinstance(y, ast.Compare) and len(y.ops) == 1 and isinstance(y.ops[0], (ast.Eq, ast.NotEq)) and ("VAR_KEYWORD" in unparse(y) or "VAR_POSITIONAL" in unparse(y)):
+            kinds_false[ast.unparse(ast.Compare(left=y.left, ops=[ast.Eq()], comparators=y.comparators))] = False
+
+    def reach(site: ast.AST, world: Dict[str, bool]) -> bool:
+        w = dict(kinds_false)
+        w.update(world)
+        st = prog.enclosing_stmt(f.module, site)
+        return cfg.find_path([cfg.entry], cfg.nodes_of(st), avoid=excluding_branches(prog, f, cfg, w, atom)) is not None
+    wit: List[str] = []
+    for s_ in kw_sites:
+        if reach(s_, {"pos": True}):
+            wit.append(f"{f.loc(s_)}: the keyword value `{unparse(s_, 30)}` can be taken although a positional argument stands at the parameter's index")
+        if not reach(s_, {"pos": False, "kw": True}):
+            wit.append(f"{f.loc(s_)}: the keyword value `{unparse(s_, 30)}` is not taken when the parameter is given by keyword only")
+    for s_ in df_sites:
+        if reach(s_, {"pos": True}):
+            wit.append(f"{f.loc(s_)}: the default `{unparse(s_, 30)}` can be taken although a positional argument stands at the parameter's index")
+        if reach(s_, {"pos": False, "kw": True}):
+            wit.append(f"{f.loc(s_)}: the default `{unparse(s_, 30)}` can be taken although the parameter is given by keyword")
+        if not reach(s_, {"pos": False, "kw": False}):
+            wit.append(f"{f.loc(s_)}: the default `{unparse(s_, 30)}` is not taken when the parameter is given neither by position nor by keyword")
+    for s_ in pos_sites:
+        if not reach(s_, {"pos": True}):
+            wit.append(f"{f.loc(s_)}: the positional value `{unparse(s_, 30)}` is not taken when there is one")
+    return ("bad", wit) if wit else ("ok", [])
